@@ -265,6 +265,17 @@ func (g *gen) worldOp(dirs []string, shapes []int, w opWeights) []Op {
 				}
 				return []Op{{K: k, P: f, N: slot}}
 			}
+		case "opendir":
+			// a directory handle on a sub-directory (keeps it alive after rmdir)
+			if sd := g.pick(subdirs); sd != "" {
+				slot := g.r.Intn(3)
+				if _, busy := g.fdOpen[slot]; busy {
+					delete(g.fdOpen, slot)
+					return []Op{{K: OpCloseFD, N: slot}}
+				}
+				g.fdOpen[slot] = sd
+				return []Op{{K: OpOpenRO, P: sd, N: slot}}
+			}
 		case "writefd":
 			for slot := 0; slot < 3; slot++ {
 				if _, ok := g.fdOpen[slot]; ok {
@@ -339,7 +350,7 @@ func (o opWeights) choose(r *ssim.RNG) string {
 }
 
 var defaultWorld = weights("create", 10, "write", 10, "truncate", 3, "chmod", 6, "unlink", 8, "mkdir", 4, "rmdir", 3,
-	"rename", 10, "renameout", 3, "renamein", 3, "link", 3, "symlink", 2, "openclose", 5, "writefd", 2, "rmrf", 1, "subfile", 4)
+	"rename", 10, "renameout", 3, "renamein", 3, "link", 3, "symlink", 2, "openclose", 5, "opendir", 2, "writefd", 2, "rmrf", 1, "subfile", 4)
 
 var bufSizes = []int{-1, 0, 1, 2, 7, 64, 4096, 65536}
 
@@ -460,6 +471,12 @@ func genMix(prop string, seed uint64, run int, o mixOpts) *Scenario {
 	for _, f := range g.paths('f') {
 		if g.chance(o.watchFiles) && !strings.HasPrefix(f, "out/") {
 			setup = append(setup, addOp(f))
+		}
+	}
+	for _, sd := range g.paths('d') {
+		// sub-directories with watches of their own, beside the parent's
+		if strings.Contains(sd, "/") && !strings.HasPrefix(sd, "out/") && g.chance(o.watchFiles*0.6) {
+			setup = append(setup, addOp(sd))
 		}
 	}
 	if o.spellings && g.chance(0.3) {
